@@ -17,35 +17,18 @@ RULE = ("self pairs (V, V) of every family (all-distinct, constant, singleton st
 THEOREMS = ["C03_identity", "C03_core_identity", "C03_const", "C03_alldistinct", "C03_self", "C03_displace_shape"]
 NAME = "MI-numba-randomized"
 WIRING_NAMES = ["MI-numba-randomized", "MI-numba", "MI-numba-3mr", "MI-numba-random", "MI-numba-Randomized", "randomized",
+                "MI-numba-3mr-randomized", "randomized-MI-numba", "MI-numba_randomized", "MI-randomized", "MI-numba-randomize",
                 "MI-numba-randomized-3mr", "x-MI-numba-randomized"]
 WIRING_PAIR = {"Y": [0, 1, 0, 1, 2, 2, 0, 1], "X": [1, 0, 1, 0, 2, 2, 1, 0]}      # corrected 0.6507, uncorrected 1.0822
 
 
 # ---------------------------------------------------------------------------
-# heuristic name -> flag, read off the source (fail closed)
+# heuristic name -> flag, read off the source.  The reader is SOUND and incomplete: it accepts only when it can show that
+# every flag expression handed to mutual_info_estimator_numba can be true only if NAME occurs in the heuristic string; anything
+# it cannot interpret is refused.  A refusal alone is not a violation: the clause is then decided by the run-time probe.
 
 class Refuse(Exception):
     pass
-
-
-def _implies_contains(test, hname):
-    """True when the boolean expression `test` can only be true if NAME occurs in the string variable `hname`."""
-    if isinstance(test, ast.Compare) and len(test.ops) == 1 and len(test.comparators) == 1:
-        a, op, b = test.left, test.ops[0], test.comparators[0]
-        def is_h(e): return isinstance(e, ast.Name) and e.id == hname
-        def const(e): return e.value if isinstance(e, ast.Constant) and isinstance(e.value, str) else None
-        if isinstance(op, ast.Eq):
-            c = const(b) if is_h(a) else const(a) if is_h(b) else None
-            return c is not None and NAME in c
-        if isinstance(op, ast.In) and is_h(b):
-            c = const(a)
-            return c is not None and NAME in c
-        return False
-    if isinstance(test, ast.BoolOp) and isinstance(test.op, ast.And):
-        return any(_implies_contains(v, hname) for v in test.values)
-    if isinstance(test, ast.BoolOp) and isinstance(test.op, ast.Or):
-        return all(_implies_contains(v, hname) for v in test.values)
-    return False
 
 
 def _stores(fn, name):
@@ -55,9 +38,190 @@ def _stores(fn, name):
             out.append(node)
         if isinstance(node, (ast.Global, ast.Nonlocal)) and name in node.names:
             out.append(node)
-        if isinstance(node, ast.arg) and node.arg == name and node is not None:
-            out.append(node)
     return out
+
+
+class _Scope:
+    """one function body: which names ARE the heuristic string, which are known string constants"""
+
+    def __init__(self, mod, fn, aliases, consts):
+        self.mod, self.fn, self.aliases, self.consts = mod, fn, set(aliases), dict(consts)
+
+    def local_value(self, name, use_line):
+        """the unique top-level assignment `name = <expr>` of this function preceding the use, else None"""
+        st = _stores(self.fn, name)
+        tops = [n for n in self.fn.body if isinstance(n, ast.Assign) and len(n.targets) == 1 and
+                isinstance(n.targets[0], ast.Name) and n.targets[0].id == name]
+        if len(st) == 1 and len(tops) == 1 and tops[0].lineno < use_line:
+            return tops[0].value
+        return None
+
+
+class _Mod:
+    def __init__(self, tree):
+        self.tree = tree
+        self.funcs = {}
+        for n in tree.body:
+            if isinstance(n, ast.FunctionDef):
+                self.funcs.setdefault(n.name, []).append(n)
+        self.consts = {}
+        counts = {}
+        for n in ast.walk(tree):
+            if isinstance(n, ast.Name) and isinstance(n.ctx, (ast.Store, ast.Del)):
+                counts[n.id] = counts.get(n.id, 0) + 1
+        for n in tree.body:
+            if (isinstance(n, ast.Assign) and len(n.targets) == 1 and isinstance(n.targets[0], ast.Name)
+                    and isinstance(n.value, ast.Constant) and isinstance(n.value.value, str)
+                    and counts.get(n.targets[0].id) == 1):
+                self.consts[n.targets[0].id] = n.value.value
+
+    def func(self, name):
+        fs = self.funcs.get(name, [])
+        return fs[0] if len(fs) == 1 else None
+
+
+def _is_heur(e, sc, depth=0):
+    if depth > 6:
+        return False
+    if isinstance(e, ast.Name):
+        if e.id in sc.aliases:
+            return not _stores(sc.fn, e.id)
+        v = sc.local_value(e.id, e.lineno)
+        return v is not None and _is_heur(v, sc, depth + 1)
+    return False
+
+
+def _const_str(e, sc, depth=0):
+    if depth > 6:
+        return None
+    if isinstance(e, ast.Constant) and isinstance(e.value, str):
+        return e.value
+    if isinstance(e, ast.Name):
+        if e.id in sc.aliases:
+            return None
+        v = sc.local_value(e.id, e.lineno)
+        if v is not None:
+            return _const_str(v, sc, depth + 1)
+        if not _stores(sc.fn, e.id):
+            return sc.consts.get(e.id)
+    return None
+
+
+def _simple_helper(fn):
+    """a helper whose body is: [docstring], simple single-target assignments, one final `return <expr>`"""
+    body = list(fn.body)
+    if body and isinstance(body[0], ast.Expr) and isinstance(body[0].value, ast.Constant):
+        body = body[1:]
+    if not body or not isinstance(body[-1], ast.Return) or body[-1].value is None:
+        return None
+    for st in body[:-1]:
+        if not (isinstance(st, ast.Assign) and len(st.targets) == 1 and isinstance(st.targets[0], ast.Name)):
+            return None
+    if fn.args.vararg or fn.args.kwarg:
+        return None
+    return body[-1].value
+
+
+def _bind(call, fn, sc):
+    """scope of helper `fn` for this call: parameters bound to the heuristic / to known constants"""
+    if any(isinstance(a, ast.Starred) for a in call.args) or any(k.arg is None for k in call.keywords):
+        return None
+    params = [a.arg for a in fn.args.posonlyargs + fn.args.args]
+    actual = dict(zip(params, call.args))
+    for k in call.keywords:
+        actual[k.arg] = k.value
+    allp = [a.arg for a in fn.args.posonlyargs + fn.args.args + fn.args.kwonlyargs]
+    aliases, consts = set(), {k: v for k, v in sc.mod.consts.items() if k not in allp}
+    for p_, a in actual.items():
+        if _is_heur(a, sc):
+            aliases.add(p_)
+        else:
+            c = _const_str(a, sc)
+            if c is not None:
+                consts[p_] = c
+    return _Scope(sc.mod, fn, aliases, consts)
+
+
+def _implies(e, sc, depth=0):
+    """True only if: e truthy  ==>  NAME occurs in the heuristic string"""
+    if depth > 8:
+        return False
+    if isinstance(e, ast.Constant):
+        return e.value is False or e.value is None or e.value == 0
+    if isinstance(e, ast.Name):
+        v = sc.local_value(e.id, e.lineno)
+        return v is not None and _implies(v, sc, depth + 1)
+    if isinstance(e, ast.Compare) and len(e.ops) == 1 and len(e.comparators) == 1:
+        a, op, b = e.left, e.ops[0], e.comparators[0]
+        if isinstance(op, ast.Eq):
+            c = _const_str(b, sc) if _is_heur(a, sc) else _const_str(a, sc) if _is_heur(b, sc) else None
+            return c is not None and NAME in c
+        if isinstance(op, ast.In) and _is_heur(b, sc):
+            c = _const_str(a, sc)
+            return c is not None and NAME in c
+        if isinstance(op, ast.In) and _is_heur(a, sc):
+            elts = b.elts if isinstance(b, (ast.Tuple, ast.List, ast.Set)) else None
+            if elts is None and isinstance(b, ast.Call) and isinstance(b.func, ast.Name) and b.func.id in ("frozenset", "set", "tuple", "list") \
+                    and len(b.args) == 1 and isinstance(b.args[0], (ast.Tuple, ast.List, ast.Set)) and not b.keywords:
+                elts = b.args[0].elts
+            if elts is None:
+                return False
+            cs = [_const_str(x, sc) for x in elts]
+            return all(c is not None and NAME in c for c in cs)
+        return False
+    if isinstance(e, ast.BoolOp) and isinstance(e.op, ast.And):
+        return any(_implies(v, sc, depth + 1) for v in e.values)
+    if isinstance(e, ast.BoolOp) and isinstance(e.op, ast.Or):
+        return all(_implies(v, sc, depth + 1) for v in e.values)
+    if isinstance(e, ast.IfExp):
+        return (_implies(e.body, sc, depth + 1) or _implies(e.test, sc, depth + 1)) and _implies(e.orelse, sc, depth + 1)
+    if isinstance(e, ast.Call) and isinstance(e.func, ast.Name) and not e.keywords and len(e.args) == 1 and e.func.id == "bool":
+        return _implies(e.args[0], sc, depth + 1)
+    if isinstance(e, ast.Call) and isinstance(e.func, ast.Name):
+        h = sc.mod.func(e.func.id)
+        ret = _simple_helper(h) if h is not None else None
+        sc2 = _bind(e, h, sc) if ret is not None else None
+        return sc2 is not None and _implies(ret, sc2, depth + 1)
+    return False
+
+
+def _is_estimator(call):
+    f = call.func
+    return (isinstance(f, ast.Attribute) and f.attr == "mutual_info_estimator_numba") or \
+           (isinstance(f, ast.Name) and f.id == "mutual_info_estimator_numba")
+
+
+def _flag_rules(sc, depth=0):
+    """descriptions of the flag expression of every estimator call reachable from sc.fn (through helpers that receive the
+    heuristic); raises Refuse when one of them is not shown to imply NAME in heuristic"""
+    if depth > 3:
+        raise Refuse("helper nesting too deep")
+    rules = []
+    for call in [n for n in ast.walk(sc.fn) if isinstance(n, ast.Call)]:
+        if _is_estimator(call):
+            if any(isinstance(a, ast.Starred) for a in call.args) or any(k.arg is None for k in call.keywords):
+                raise Refuse("*/** arguments in the estimator call (line %d)" % call.lineno)
+            flag = next((k.value for k in call.keywords if k.arg == "cardinality_correction"), None)
+            if flag is None and len(call.args) >= 4:
+                flag = call.args[3]
+            if flag is None:
+                rules.append("flag not passed (default False)")
+            elif _implies(flag, sc):
+                v = sc.local_value(flag.id, flag.lineno) if isinstance(flag, ast.Name) else None
+                rules.append(ast.unparse(flag) + (" := " + ast.unparse(v) if v is not None else ""))
+            else:
+                v = sc.local_value(flag.id, flag.lineno) if isinstance(flag, ast.Name) else None
+                raise Refuse("line %d: cardinality_correction=%s%s is not shown to imply %r in the heuristic name"
+                             % (call.lineno, ast.unparse(flag), " := " + ast.unparse(v) if v is not None else "", NAME))
+        elif isinstance(call.func, ast.Name) and sc.mod.func(call.func.id) is not None and call.func.id != sc.fn.name:
+            h = sc.mod.func(call.func.id)
+            sc2 = _bind(call, h, sc)
+            if sc2 is not None and sc2.aliases:
+                rules += _flag_rules(sc2, depth + 1)
+    for node in ast.walk(sc.fn):
+        if isinstance(node, ast.Attribute) and node.attr.startswith("mutual_info_estimator_numba") and node.attr != "mutual_info_estimator_numba":
+            raise Refuse("numba_mi uses another estimator entry point: %s" % node.attr)
+    return rules
 
 
 def wiring_from_source(repo):
@@ -67,66 +231,88 @@ def wiring_from_source(repo):
         tree = ast.parse(open(path, encoding="utf8").read())
     except (OSError, SyntaxError) as e:
         raise Refuse("cannot parse %s: %s" % (path, e))
-    fns = [n for n in tree.body if isinstance(n, ast.FunctionDef) and n.name == "numba_mi"]
-    if len(fns) != 1:
-        raise Refuse("expected exactly one top-level def numba_mi, found %d" % len(fns))
-    fn = fns[0]
+    mod = _Mod(tree)
+    fn = mod.func("numba_mi")
+    if fn is None or sum(1 for n in ast.walk(tree) if isinstance(n, ast.FunctionDef) and n.name == "numba_mi") != 1:
+        raise Refuse("expected exactly one def numba_mi")
     params = [a.arg for a in fn.args.posonlyargs + fn.args.args]
-    if len(params) < 3 or fn.args.vararg or fn.args.kwarg:
+    if fn.args.vararg or fn.args.kwarg or (("heuristic" not in params) and len(params) < 3):
         raise Refuse("numba_mi signature not understood: %s" % params)
-    hname = params[2]
-    if [s for s in _stores(fn, hname) if not isinstance(s, ast.arg)]:
+    hname = "heuristic" if "heuristic" in params else params[2]
+    hpos = params.index(hname)
+    if _stores(fn, hname):
         raise Refuse("the heuristic parameter %r is reassigned inside numba_mi" % hname)
-    cc = "cardinality_correction"
-    st = _stores(fn, cc)
-    tops = [n for n in fn.body if isinstance(n, ast.Assign) and len(n.targets) == 1 and isinstance(n.targets[0], ast.Name)
-            and n.targets[0].id == cc]
-    if len(st) != 1 or len(tops) != 1:
-        raise Refuse("expected exactly one top-level assignment to %s in numba_mi (found %d stores, %d top-level)" % (cc, len(st), len(tops)))
-    val = tops[0].value
-    if isinstance(val, ast.Constant) and val.value is False:
-        desc = "always off"
-    elif _implies_contains(val, hname):
-        desc = ast.unparse(val)
-    else:
-        raise Refuse("%s = %s does not syntactically imply %r in %s" % (cc, ast.unparse(val), NAME, hname))
-    calls = [n for n in ast.walk(fn) if isinstance(n, ast.Call) and
-             ((isinstance(n.func, ast.Attribute) and n.func.attr == "mutual_info_estimator_numba") or
-              (isinstance(n.func, ast.Name) and n.func.id == "mutual_info_estimator_numba"))]
-    if len(calls) != 1:
-        raise Refuse("expected exactly one call of mutual_info_estimator_numba in numba_mi, found %d" % len(calls))
-    call = calls[0]
-    flag_arg = None
-    for kw in call.keywords:
-        if kw.arg is None:
-            raise Refuse("**kwargs in the estimator call")
-        if kw.arg == cc:
-            flag_arg = kw.value
-    if flag_arg is None and len(call.args) >= 4 and not any(isinstance(a, ast.Starred) for a in call.args):
-        flag_arg = call.args[3]
-    if flag_arg is None:
-        if desc == "always off":
-            return {"rule": desc, "source": path}
-        raise Refuse("the estimator call does not pass cardinality_correction")
-    if not (isinstance(flag_arg, ast.Name) and flag_arg.id == cc) and not (isinstance(flag_arg, ast.Constant) and flag_arg.value is False):
-        raise Refuse("the estimator call passes %s as cardinality_correction" % ast.unparse(flag_arg))
-    # the caller hands the configured heuristic name through unchanged
-    cfr = [n for n in tree.body if isinstance(n, ast.FunctionDef) and n.name == "conduct_feature_ranking"]
-    if len(cfr) != 1:
-        raise Refuse("expected exactly one def conduct_feature_ranking")
+    rules = _flag_rules(_Scope(mod, fn, {hname}, {k: v for k, v in mod.consts.items() if k not in params}))
+    if not rules:
+        raise Refuse("no call of mutual_info_estimator_numba reachable from numba_mi")
+    # every caller hands the configured name (<something>.heuristic) through unchanged
+    parents = {}
+    for p_ in ast.walk(tree):
+        for ch in ast.iter_child_nodes(p_):
+            parents[ch] = p_
+    ncalls = 0
     for n in ast.walk(tree):
         if isinstance(n, ast.Call) and isinstance(n.func, ast.Name) and n.func.id == "numba_mi":
+            ncalls += 1
             if any(isinstance(a, ast.Starred) for a in n.args) or any(k.arg is None for k in n.keywords):
                 raise Refuse("numba_mi called with */** arguments")
-            h = n.args[2] if len(n.args) >= 3 else next((k.value for k in n.keywords if k.arg == hname), None)
-            if not (isinstance(h, ast.Name) and h.id == "heuristic"):
-                raise Refuse("numba_mi is called with heuristic argument %s" % (ast.unparse(h) if h is not None else None))
-    hs = [s for s in _stores(cfr[0], "heuristic") if not isinstance(s, ast.arg)]
-    asg = [n for n in cfr[0].body if isinstance(n, ast.Assign) and len(n.targets) == 1 and isinstance(n.targets[0], ast.Name)
-           and n.targets[0].id == "heuristic"]
-    if len(hs) != 1 or len(asg) != 1 or ast.unparse(asg[0].value) != "args.heuristic":
-        raise Refuse("conduct_feature_ranking does not bind heuristic = args.heuristic exactly once")
-    return {"rule": desc, "source": path}
+            h = n.args[hpos] if len(n.args) > hpos else next((k.value for k in n.keywords if k.arg == hname), None)
+            okh = isinstance(h, ast.Attribute) and h.attr == "heuristic"
+            if not okh and isinstance(h, ast.Name):
+                f = parents.get(n)
+                while f is not None and not isinstance(f, (ast.FunctionDef, ast.Lambda)):
+                    f = parents.get(f)
+                if isinstance(f, ast.FunctionDef):
+                    v = _Scope(mod, f, set(), {}).local_value(h.id, n.lineno)
+                    okh = isinstance(v, ast.Attribute) and v.attr == "heuristic"
+            if not okh:
+                raise Refuse("numba_mi is called with heuristic argument %s (line %d)" % (ast.unparse(h) if h is not None else None, n.lineno))
+    return {"rule": "; ".join(rules), "source": path, "numba_mi_callers": ncalls}
+
+
+def doc_names():
+    """heuristic names used by the project's own material (coq/Gen/DocNames.v, written by the C05 translator), if present"""
+    import re
+    p = os.path.join(vlib.COQ, "Gen", "DocNames.v")
+    out = []
+    try:
+        for ln in open(p, encoding="utf8"):
+            m = re.match(r"^\s*\[([0-9; ]*)\];?\s*\(\*", ln)
+            if m:
+                out.append("".join(chr(int(x)) for x in m.group(1).replace(" ", "").split(";") if x))
+    except OSError:
+        pass
+    return out
+
+
+def wres_err(out):
+    e = (out.get("wiring") or {}).get("__import__")
+    return e["error"] if e else "no result"
+
+
+def gen_histories(rng):
+    """call sequences against preallocated buffers overwritten in place between the calls"""
+    hs = []
+    for via in ("numba_mi_1d", "conduct_feature_ranking", "numba_mi"):
+        for reuse_feature in (False, True):
+            n = rng.randint(8, 60)
+            steps = []
+            for k in range(rng.randint(2, 4)):
+                X = c01._zipf(rng, n, rng.choice([2, 3, 5]), a=[0.3, 2.5, 1.0, 3.5][k])      # group sizes change every step
+                kind = rng.choice(["identifier", "noise", "signal"])
+                if kind == "identifier":
+                    Y = list(range(n))
+                    rng.shuffle(Y)
+                elif kind == "noise":
+                    Y = [rng.randrange(rng.choice([2, 7, 20])) for _ in range(n)]
+                else:
+                    Y = [x if rng.random() > 0.15 else rng.randrange(5) for x in X]
+                steps.append({"Y": Y, "X": X})
+            hs.append({"kind": "history", "via": via, "heuristic": NAME, "reuse_feature": reuse_feature, "steps": steps})
+    h = dict(hs[0])
+    h["heuristic"] = "MI-numba"
+    hs.append(h)
+    return hs
 
 
 # ---------------------------------------------------------------------------
@@ -149,19 +335,23 @@ def check(run, replay):
         raise vlib.Broken("build:MI/Model.vo", log)
     vlib.standard_proof_phase(run, ["Props/C03.vo"], "Outrank.Props.C03", THEOREMS, allowed=vlib.STD_REAL_AXIOMS)
 
-    # --- obligation: only names containing 'MI-numba-randomized' switch the flag on (source level, fail closed)
+    # --- heuristic name -> flag, source level (sound, incomplete reader; a refusal is decided by the run-time probe below)
     try:
         w = wiring_from_source(vlib.REPO)
-        run.oblige("wiring(ast): cardinality_correction is on only for heuristic names containing %r" % NAME, True,
-                   "cardinality_correction = %s" % w["rule"])
-        wiring_ok = True
+        ast_ok, ast_msg = True, "cardinality_correction = %s (%d caller(s) of numba_mi pass <x>.heuristic)" % (w["rule"], w["numba_mi_callers"])
     except Refuse as e:
-        wiring_ok = False
-        run.oblige("wiring(ast): cardinality_correction is on only for heuristic names containing %r" % NAME, False, str(e))
+        ast_ok, ast_msg = False, str(e)
+    except Exception as e:                       # a reader bug must not decide anything
+        ast_ok, ast_msg = False, "reader error %s: %s" % (type(e).__name__, e)
 
-    wiring_replay = replay is not None and (replay.get("case") or {}).get("kind") == "wiring"
+    rkind = (replay.get("case") or {}).get("kind") if replay is not None else None
+    wiring_replay = rkind == "wiring"
+    histories = []
     if wiring_replay:
         cases, seeds = [], 0
+    elif rkind == "history":
+        cases, seeds = [], 0
+        histories = [replay["case"]]
     elif replay is not None:
         cases = [replay["case"]]
         seeds = 0
@@ -172,6 +362,15 @@ def check(run, replay):
         if run.tier == "thorough":
             cases += c01.exhaustive_pairs(True)
         seeds = 20 if run.tier == "quick" else 100
+        histories = gen_histories(run.rng)
+        if run.tier == "thorough":
+            for _ in range(4):
+                histories += gen_histories(run.rng)
+    do_wiring = replay is None or wiring_replay
+    names = list(WIRING_NAMES)
+    for nm in doc_names():
+        if nm not in names:
+            names.append(nm)
     for c in cases:
         c["flag"] = True
 
@@ -201,10 +400,16 @@ def check(run, replay):
                         ("self-singleton-heavy", [i if i % 3 else 0 for i in range(n)])):
             pl.append({"Y": v, "X": list(v), "flag": True, "seed": -1, "feat": name})
     payload_cases = [{"Y": c["Y"], "X": c["X"], "flag": c["flag"]} for c in cases + pl]
-    out = vlib.run_impl("impl_c01.py", {"cases": payload_cases, "wiring": replay is None or wiring_replay,
-                                        "wiring_names": WIRING_NAMES, "wiring_pair": WIRING_PAIR})
+    out = vlib.run_impl("impl_c01.py", {"cases": payload_cases, "wiring": do_wiring, "wiring_names": names,
+                                        "wiring_pair": WIRING_PAIR, "histories": histories})
     res = out["results"]
-    terms = c01.model_terms("C03", cases)
+    # one Coq run for the cases, the two probe values and every step of every history (contents at call time)
+    probe = [dict(WIRING_PAIR, flag=True), dict(WIRING_PAIR, flag=False)] if do_wiring else []
+    hsteps = [{"Y": st["Y"], "X": st["X"], "flag": h["heuristic"] == NAME} for h in histories for st in h["steps"]]
+    all_terms = c01.model_terms("C03", cases + probe + hsteps)
+    terms = all_terms[:len(cases)]
+    probe_terms = all_terms[len(cases):len(cases) + len(probe)]
+    hterms = all_terms[len(cases) + len(probe):]
     results = []
     for c, r, t in zip(cases, res[:len(cases)], terms):
         okc, info = c01.compare(c, r, t)
@@ -215,39 +420,74 @@ def check(run, replay):
                                    "up to single-precision rounding",
                             obligation="correspondence:impl(flag=True) = eval(model terms) within 8*2^-24*(sum|terms|+1e-6)")
 
-    # --- wiring at run time: numba_mi(Y, X, name, 1.0) against the model's corrected / uncorrected values
-    if "wiring" in out:
-        wt = c01.model_terms("C03", [dict(WIRING_PAIR, flag=True), dict(WIRING_PAIR, flag=False)])
-        on, s_on = c01.eval_float(wt[0])
-        off, s_off = c01.eval_float(wt[1])
-        bad = []
-        seen = {}
-        for name in WIRING_NAMES:
-            r = out["wiring"].get(name) or out["wiring"].get("__import__") or {"ok": False, "error": "no result"}
-            if not r["ok"]:
-                bad.append((name, r["error"]))
-                continue
-            v = c01.as_float(r["v"])
-            is_on = abs(v - on) <= c01.tolerance(s_on)
-            is_off = abs(v - off) <= c01.tolerance(s_off)
-            seen[name] = "on" if is_on else "off" if is_off else v
-            if name == NAME and not is_on:
-                bad.append((name, "score %r, expected the corrected score %r" % (v, on)))
-            elif NAME not in name and not is_off:
-                bad.append((name, "score %r, expected the uncorrected score %r" % (v, off)))
-            elif not (is_on or is_off):
-                bad.append((name, "score %r is neither the corrected nor the uncorrected score" % v))
-        run.oblige("wiring(run time): numba_mi switches the correction on for %r and for no name not containing it" % NAME,
-                   not bad, json.dumps(bad)[:400] if bad else json.dumps(seen))
+    # --- wiring at run time: numba_mi / conduct_feature_ranking per heuristic name, observed through the score (corrected and
+    # uncorrected values of the probe pair differ: 0.6507 vs 1.0822) and through the flag handed to the estimator
+    if do_wiring:
+        on, s_on = c01.eval_float(probe_terms[0])
+        off, s_off = c01.eval_float(probe_terms[1])
+        bad, seen = [], {}
+        wres = out.get("wiring", {})
+        for name in names:
+            per = wres.get(name) or {"numba_mi": wres.get("__import__") or {"ok": False, "error": "no result"}}
+            for via, r in per.items():
+                if not r["ok"]:
+                    bad.append((name, via, r["error"]))
+                    continue
+                v = c01.as_float(r["v"])
+                is_on = abs(v - on) <= c01.tolerance(s_on)
+                is_off = abs(v - off) <= c01.tolerance(s_off)
+                flags = [f for f in r.get("flag_seen", []) if f is not None]
+                seen.setdefault(name, {})[via] = ("on" if is_on else "off" if is_off else v, flags)
+                if name == NAME and (not is_on or False in flags):
+                    bad.append((name, via, "score %r (flag passed: %s), expected the corrected score %r" % (v, flags, on)))
+                elif NAME not in name and (not is_off or True in flags):
+                    bad.append((name, via, "score %r (flag passed: %s), expected the uncorrected score %r" % (v, flags, off)))
+                elif not (is_on or is_off):
+                    bad.append((name, via, "score %r is neither the corrected nor the uncorrected score" % v))
+        how = "ast reader + run-time probe" if ast_ok else "run-time probe only (ast reader refused: %s)" % ast_msg
+        run.cov["wiring_decided_by"] = how
+        run.cov["wiring_probe"] = {"names": names, "observed": seen}
+        run.oblige("wiring: the correction is on for %r and for no heuristic name that does not contain it" % NAME, not bad,
+                   json.dumps(bad)[:500] if bad else ("wiring held by " + how + ("; " + ast_msg if ast_ok else ""))[:600])
+        if not ast_ok:
+            run.notes.append("C03 wiring held by run-time probe only (ast reader refused: %s)" % ast_msg)
         if bad:
-            run.violation("counterexample", "heuristic name -> correction flag (importance_estimator.numba_mi)",
-                          case={"kind": "wiring", "heuristic": bad[0][0], "Y": WIRING_PAIR["Y"], "X": WIRING_PAIR["X"]},
-                          impl=bad[0][1], model={"corrected": on, "uncorrected": off},
+            run.violation("counterexample", "heuristic name -> correction flag (importance_estimator.%s)" % bad[0][1],
+                          case={"kind": "wiring", "heuristic": bad[0][0], "via": bad[0][1], "Y": WIRING_PAIR["Y"], "X": WIRING_PAIR["X"]},
+                          impl=bad[0][2], model={"corrected": on, "uncorrected": off},
                           clause="the correction is on exactly for heuristic MI-numba-randomized")
-            wiring_ok = True          # a concrete failing input was found; do not add a second, input-less violation
-    if not wiring_ok:
-        run.violation("broken-obligation", "wiring(ast) importance_estimator.numba_mi", found_input=False,
-                      extra=[o for o in run.obligations if o[0].startswith("wiring(ast)")][0][2])
+
+    # --- histories: the score of every call equals the model value on the buffer contents at call time
+    if histories:
+        hres = out.get("histories", [])
+        k = 0
+        hbad = 0
+        nsteps = 0
+        for hi, h in enumerate(histories):
+            steps_r = hres[hi] if hi < len(hres) else []
+            for si, st in enumerate(h["steps"]):
+                t = hterms[k]
+                k += 1
+                nsteps += 1
+                r = steps_r[si] if si < len(steps_r) else {"ok": False, "error": wres_err(out)}
+                okc, info = c01.compare({"Y": st["Y"], "X": st["X"], "flag": True}, r, t)
+                run.evaluations += 1
+                if not okc:
+                    hbad += 1
+                    if hbad == 1:
+                        small = dict(h)
+                        small["steps"] = h["steps"][:si + 1]
+                        run.violation("counterexample", "history of calls through importance_estimator.%s on buffers overwritten in place" % h["via"].replace("_1d", ""),
+                                      case=small, impl={"step": si, "score": info.get("impl", info.get("impl_error"))},
+                                      model={"step": si, "value": info["model"], "tolerance": info["tolerance"]},
+                                      clause="the score of a call is a function of the two vectors' contents at call time "
+                                             "(H(Y*|X) - H(Y|X) with Y* displaced by the CURRENT group sizes)")
+                    break
+        run.oblige("history: scores through numba_mi / conduct_feature_ranking on reused, overwritten buffers = model on the "
+                   "contents at call time", hbad == 0, "%d of %d histories fail" % (hbad, len(histories)) if hbad else
+                   "%d histories, %d calls" % (len(histories), nsteps))
+        run.cov["histories"] = {"count": len(histories), "calls": nsteps,
+                                "via": sorted({h["via"] for h in histories}), "reuse_feature_buffer": sum(1 for h in histories if h.get("reuse_feature"))}
 
     # --- planted family: identity on every member (a failure here IS a violation), ranking only reported
     if pl:
@@ -300,9 +540,9 @@ def check(run, replay):
         "codes >= 0 and < 2^20, n >= 1, approximation_factor = float32(1.0) (see C01)",
         "PARTIAL: 'an informative low-cardinality feature outranks independent noise features of any cardinality at n >= 4000' is a "
         "statement about random draws; it is not a theorem and is reported only as planted_signal_supporting_statistic",
-        "the wiring obligation reads importance_estimator.py with a fail-closed ast pattern: a rewrite of numba_mi that keeps the "
-        "behaviour but not the shape (one top-level assignment `cardinality_correction = <test on heuristic>` passed to the "
-        "estimator call) is refused and must be re-reviewed",
+        "wiring clause: decided by the run-time probe (numba_mi and conduct_feature_ranking on every probe name incl. the documented "
+        "ones; score and the flag handed to the estimator); the sound-but-incomplete ast reader adds the for-all-names statement "
+        "when it accepts the source shape, and its refusal alone is not a violation (see coverage.wiring_decided_by)",
     ]
     run.trusted += [
         "harness: tools/props/c03.py (ast reader of numba_mi, planted family), tools/props/c01.py (eval_float mirror, py_terms = "
